@@ -244,6 +244,12 @@ func (g *hgen) deterministic() {
 	// a backward pointer to an earlier place that loops on itself
 	g.name("backward-into-loop", cat([]byte{1, 'a'}, ptr(0), []byte{1, 'b'}, ptr(0)), 4)
 	g.name("backward-into-self", cat(ptr(0), []byte{1, 'b'}, ptr(0)), 2)
+	// a cycle made of pointers only that lies wholly before the name being read (every hop points
+	// before that name's start: only a bound that shrinks with every hop, or a hop count, ends it)
+	g.name("backward-into-cycle", cat(ptr(2), ptr(0), []byte{1, 'b'}, ptr(0)), 4)
+	g.name("backward-into-cycle", cat(ptr(2), ptr(0), ptr(0)), 4)
+	g.name("backward-into-cycle", cat(ptr(2), ptr(4), ptr(0), []byte{1, 'b'}, ptr(2)), 6)
+	g.name("backward-into-cycle", cat(abc, ptr(7), ptr(5), []byte{2, 'x', 'y'}, ptr(7)), 9)
 	// out of range targets
 	for _, n := range []int{0, 1, 2, 0x3FFF - 12} {
 		b := cat(abc, []byte{1, 'x'})
